@@ -358,10 +358,31 @@ func (E *Engine) VerifyFunc(p *packages.Package, pc *PkgContracts, c *FuncContra
 			ks = append(ks, k)
 		}
 		sort.Ints(ks)
+		type fk struct {
+			k     int
+			spine bool
+		}
+		var fks []fk
 		for _, k := range ks {
-			ok, why, used := E.freshResult(p, decl, k)
-			o := &Obligation{Name: fmt.Sprintf("%s/fresh.r%d", f.key, k), Kind: "fresh", Fn: f.key, Pkg: p.PkgPath, Props: c.Props,
-				Text: fmt.Sprintf("fresh r%d: the result shares no mutable memory with receiver, parameters or package state", k), Src: fmt.Sprintf("%s:%d", shortPath(c.File), c.Line)}
+			fks = append(fks, fk{k, false})
+		}
+		var sks []int
+		for k := range c.Spine {
+			sks = append(sks, k)
+		}
+		sort.Ints(sks)
+		for _, k := range sks {
+			fks = append(fks, fk{k, true})
+		}
+		for _, x := range fks {
+			k := x.k
+			ok, why, used := E.freshResult(p, decl, k, x.spine)
+			name, text := "fresh", "the result shares no mutable memory with receiver, parameters or package state"
+			if x.spine {
+				name, text = "freshspine", "the returned container (slice/map storage) is newly allocated or one of the arguments, never package state or storage obtained elsewhere; its elements may alias"
+			}
+			o := &Obligation{Name: fmt.Sprintf("%s/%s.r%d", f.key, name, k), Kind: "fresh", Fn: f.key, Pkg: p.PkgPath, Props: c.Props,
+				Text: fmt.Sprintf("%s r%d: %s", name, k, text), Src: fmt.Sprintf("%s:%d", shortPath(c.File), c.Line)}
 			if ok {
 				o.Decided = "unsat"
 				o.Output = "ownership rule: every returned expression is an allocation, pointer-free, part of a fresh value, the result of a callee under a fresh contract, or filled by a decoder"
